@@ -51,26 +51,38 @@ func opAPIErr() error {
 		return err
 	}
 	s := rp.S
-	// a store with a fork and an orphan chain: 0<-1<-2<-3 longest, 1<-4 stale, (unknown)<-5<-6 orphans
+	// store 0: a fork and an orphan chain: 0<-1<-2<-3 longest, 1<-4 stale, (unknown)<-5<-6 orphans
 	b := Behaviour{Hist: []Step{{Op: "add", ID: 1, Parent: 0, Work: 1, Root: 1}, {Op: "add", ID: 2, Parent: 1, Work: 1, Root: 2}, {Op: "add", ID: 3, Parent: 2, Work: 1, Root: 3},
 		{Op: "add", ID: 4, Parent: 1, Work: 1, Root: 4}, {Op: "add", ID: 5, Parent: 99, Work: 1, Root: 5}, {Op: "add", ID: 6, Parent: 5, Work: 1, Root: 6}}}
+	longestIDs, staleIDs, orphanIDs := []int{1, 2, 3}, []int{4}, []int{5, 6}
+	if envInt("VERIF_STORE", 0) == 1 {
+		// store 1: the highest stored headers are NOT on the longest chain: 0<-1<-2 longest (heavy), 1<-3<-4<-5 stale (taller,
+		// lighter), (unknown)<-6<-7<-8<-9<-10 orphans (pseudo-heights 1..5)
+		b = Behaviour{Hist: []Step{{Op: "add", ID: 1, Parent: 0, Work: 4, Root: 1}, {Op: "add", ID: 2, Parent: 1, Work: 4, Root: 2},
+			{Op: "add", ID: 3, Parent: 1, Work: 1, Root: 3}, {Op: "add", ID: 4, Parent: 3, Work: 1, Root: 4}, {Op: "add", ID: 5, Parent: 4, Work: 1, Root: 5},
+			{Op: "add", ID: 6, Parent: 99, Work: 1, Root: 6}, {Op: "add", ID: 7, Parent: 6, Work: 1, Root: 7}, {Op: "add", ID: 8, Parent: 7, Work: 1, Root: 8},
+			{Op: "add", ID: 9, Parent: 8, Work: 1, Root: 9}, {Op: "add", ID: 10, Parent: 9, Work: 1, Root: 10}}}
+		longestIDs, staleIDs, orphanIDs = []int{1, 2}, []int{3, 4, 5}, []int{6, 7, 8, 9, 10}
+	}
 	c := Concretise(&b, rp.Genesis, seed)
 	if err := s.Reset(); err != nil {
 		return err
 	}
+	var buildFailure string
 	for _, st := range b.Hist {
-		if _, err, crashed := SafeAdd(s.Svc.Chains, c.Source(st.ID)); err != nil || crashed != "" {
-			return fmt.Errorf("building the store: %v %s", err, crashed)
+		if _, err, crashed := SafeAdd(s.Svc.Chains, c.Source(st.ID)); (err != nil || crashed != "") && buildFailure == "" {
+			// the service refuses to ingest a header of the fixture: the requests below are still made against what is stored
+			buildFailure = fmt.Sprintf("header %d: %v %s", st.ID, err, crashed)
 		}
 	}
 	hashOf := func(class string) string {
 		switch class {
 		case "longest":
-			return c.HashOf([]int{1, 2, 3}[rng.Intn(3)])
+			return c.HashOf(longestIDs[rng.Intn(len(longestIDs))])
 		case "stale":
-			return c.HashOf(4)
+			return c.HashOf(staleIDs[rng.Intn(len(staleIDs))])
 		case "orphan":
-			return c.HashOf([]int{5, 6}[rng.Intn(2)])
+			return c.HashOf(orphanIDs[rng.Intn(len(orphanIDs))])
 		case "genesis":
 			return c.HashOf(0)
 		case "unknown":
@@ -120,7 +132,11 @@ func opAPIErr() error {
 	whURL := "http://verif.invalid/registered"
 	res := Result{DevUsed: map[string]int{}, Stats: map[string]int{}}
 	var out []Mismatch
+	if buildFailure != "" {
+		out = append(out, Mismatch{Kind: "api", Exp: "the store of the scenario (forks, a taller lighter stale branch, orphan chains) is ingested through Chains.Add without an error", Got: buildFailure})
+	}
 	t0 := time.Now()
+	var authStack *Stack
 	for ri, row := range tbl.Rows {
 		for k := 0; k < inst; k++ {
 			method, path, body := "GET", "", []byte(nil)
@@ -246,9 +262,9 @@ func opAPIErr() error {
 				}
 				switch P(1) {
 				case "longestroot":
-					args = append(args, "lastEvaluatedKey", rootStr(1+rng.Intn(3)))
+					args = append(args, "lastEvaluatedKey", rootStr(longestIDs[rng.Intn(len(longestIDs))]))
 				case "staleroot":
-					args = append(args, "lastEvaluatedKey", rootStr(4+rng.Intn(3)))
+					args = append(args, "lastEvaluatedKey", rootStr(append(append([]int{}, staleIDs...), orphanIDs...)[rng.Intn(len(staleIDs)+len(orphanIDs))]))
 				case "unknown":
 					args = append(args, "lastEvaluatedKey", rootStr(77))
 				case "weird":
@@ -299,12 +315,45 @@ func opAPIErr() error {
 			case "DELETE access/:token":
 				path = "/access/" + url.PathEscape(map[string]string{"issued": "sometoken", "unknown": "nosuchtoken", "weird": []string{"%00", "a b", strings.Repeat("t", 3000)}[rng.Intn(3)]}[P(0)])
 			default:
-				out = append(out, Mismatch{Beh: ri, Kind: "harness", Exp: "known route", Got: row.Route})
-				continue
+				if !strings.HasPrefix(row.Route, "AUTH ") {
+					out = append(out, Mismatch{Beh: ri, Kind: "harness", Exp: "known route", Got: row.Route})
+					continue
+				}
 			}
-			before, _ := s.Digest()
-			code, rb := s.HTTP(method, "/api/v1"+path, body, nil)
-			after, _ := s.Digest()
+			var hdrs map[string]string
+			target := s
+			if strings.HasPrefix(row.Route, "AUTH ") {
+				// the same routes on a stack with authentication switched on, with every kind of Authorization header but a valid one
+				if authStack == nil {
+					cfg := NewConfig(os.Getenv("VERIF_DB") + ".auth")
+					cfg.HTTP.UseAuth = true
+					cfg.HTTP.AuthToken = fmt.Sprintf("admin-%d-token", seed)
+					authStack = &Stack{Cfg: cfg}
+					if err := authStack.Open(); err != nil {
+						return err
+					}
+					defer authStack.Close()
+				}
+				target = authStack
+				f := strings.Fields(row.Route)
+				method = f[1]
+				path = map[string]string{"tip/longest": "/chain/tip/longest", "header/byHeight": "/chain/header/byHeight?height=0", "access": "/access",
+					"merkleroot/verify": "/chain/merkleroot/verify", "webhook": "/webhook?url=http://x.invalid/h"}[f[2]]
+				if method == "POST" {
+					body = []byte("[]")
+				}
+				v := map[string]string{"schemeOnly": "Bearer", "schemeAndSpace": "Bearer ", "oneChar": []string{"x", "B", " "}[rng.Intn(3)],
+					"shortWord": []string{"Basic", "Token", "abc123", "bearer", "Bearer"[:1+rng.Intn(5)]}[rng.Intn(5)], "lowercaseScheme": "bearer " + authStack.Cfg.HTTP.AuthToken,
+					"basic": "Basic dXNlcjpwYXNz", "extraParts": "Bearer a b", "unknownToken": "Bearer no-such-token", "veryLong": "Bearer " + strings.Repeat("z", 20000),
+					"binary": "Bearer \x01\x7f\xff"}[P(0)]
+				hdrs = map[string]string{}
+				if P(0) != "none" {
+					hdrs["Authorization"] = v
+				}
+			}
+			before, _ := target.Digest()
+			code, rb := target.HTTP(method, "/api/v1"+path, body, hdrs)
+			after, _ := target.Digest()
 			res.Queries++
 			res.Stats["exp:"+row.Exp]++
 			what := fmt.Sprintf("%s %v: %s %s body=%.80q", row.Route, row.P, method, path, body)
